@@ -231,8 +231,19 @@ def job_inner(j):
     ex.global_objs = BASE_EX.global_objs
     ex.init_mode = False
     budget_hit = False
+    engine_err = None
     try:
         finished = ex.run_harness(hname)
+    except fpops.EngineError as e:
+        # code the executor has no model for (typically introduced by a change): no verdict from
+        # the symbolic side.  If the harness has an inputs label and native-oracle witnesses,
+        # those are still drawn (a natively reproduced failure is a violation whatever the
+        # executor could not do); the case itself stays an engine error (exit 2 unless violated).
+        if not hc.get('oracle') or getattr(ex, 'entry', None) is None or hc.get('_hunt'):
+            raise
+        engine_err = '%s: %s' % (type(e).__name__, e)
+        finished = []
+        ex.res.obligations = []
     except JobTimeout:
         # exploration did not finish: discharge what was collected so far (a violation found
         # on an explored path is still a violation); the case as a whole stays inconclusive
@@ -449,6 +460,8 @@ def job_inner(j):
                 for k, t in reals:
                     w = rnd.choice([0.5, 2.0, 8.0, 32.0])
                     lo = rnd.uniform(-64, 64 - w)
+                    sc = rnd.choice([1.0, 1.0, 1.0, 2.0 ** rnd.randint(8, 40), 2.0 ** rnd.randint(40, 95), 2.0 ** -rnd.randint(8, 60)])
+                    w, lo = w * sc, lo * sc     # some cells far from the unit scale (dropped where the assumptions exclude them)
                     so.push()
                     so.add(z3.And(t >= z3.RealVal(repr(lo)), t <= z3.RealVal(repr(lo + w))))
                     if so.check() != z3.sat:
@@ -504,7 +517,7 @@ def job_inner(j):
                 labels=sorted(res.labels), reached=res.reached, folded=res.folded, obligations=obs,
                 stubs=sorted(res.stubs), assumptions=sorted(fpops.CTX.assumptions | res.assumptions), notes=sorted(set(res.notes)) + hunt_notes,
                 forks=res.forks, merges=res.merges, samples=samples, params=getattr(res, 'params_used', {}),
-                mode=hc.get('mode', 'B'), wall=time.time() - t_start, pkgdir=pkgdir, timed_out=bool(budget_hit))
+                mode=hc.get('mode', 'B'), wall=time.time() - t_start, pkgdir=pkgdir, timed_out=bool(budget_hit), engine_error=engine_err)
 
 
 BASE_EX = None
@@ -612,6 +625,7 @@ def finish(pid, seed, t0, t_export, results, known):
     # inconclusive (nothing is claimed for it), not an engine failure
     timeouts = [r for r in results if ('error' in r and r['error'].startswith('JobTimeout')) or r.get('timed_out')]
     errors = [r for r in results if 'error' in r and not r['error'].startswith('JobTimeout')]
+    errors += [dict(r, error=r['engine_error']) for r in results if r.get('engine_error')]
     good = [r for r in results if 'error' not in r]
     # native validation of sampled paths
     validated = 0
